@@ -55,7 +55,7 @@ def yaml_expressible(spec):
     if spec.get("address_space_bounds") is not None:
         return False
     for h in spec["hosts"].values():
-        if float(h.get("discovery_value", 0)) != 0.0:
+        if float(h.get("discovery_value", 0)) != 0.0 or h.get("_init_flags"):
             return False
     return True
 
@@ -108,9 +108,19 @@ def to_yaml_doc(spec, style=None):
     access_form = style.get("access", "word")
     assert yaml_expressible(spec), "spec needs the dict binding"
     doc = {}
+    keys = style.get("keys", "canonical")
+
+    def key(a):
+        # address / connection keys are Python tuples written as text; the spacing is up to the author. The keys of
+        # host_configurations are the exception: the loader looks them up as str((subnet, host)), i.e. canonical.
+        # (only the canonical spelling str((a, b)) is used by the registered checks: the documentation writes every key
+        # that way and the loader itself looks firewall and host keys up in that spelling, so other spacings are outside
+        # the documented format - see DESIGN §10)
+        a = (int(a[0]), int(a[1]))
+        return {"canonical": str(a), "compact": "(%d,%d)" % a, "spaced": "( %d, %d )" % a}[keys]
     doc["subnets"] = list(spec["subnets"])
     doc["topology"] = [list(map(int, r)) for r in spec["topology"]]
-    doc["sensitive_hosts"] = {str(a): v for a, v in spec["sensitive_hosts"].items()}
+    doc["sensitive_hosts"] = {key(a): v for a, v in spec["sensitive_hosts"].items()}
     doc["os"] = list(spec["os"])
     doc["services"] = list(spec["services"])
     doc["processes"] = list(spec["processes"])
@@ -146,15 +156,26 @@ def to_yaml_doc(spec, style=None):
         h = spec["hosts"][a]
         cfg = {"os": h["os"], "services": list(h["services"]), "processes": list(h["processes"])}
         if h.get("firewall") or style.get("empty_host_firewall"):
-            cfg["firewall"] = {str(k): list(v) for k, v in h.get("firewall", {}).items()}
+            cfg["firewall"] = {key(k): list(v) for k, v in h.get("firewall", {}).items()}
         if "value" in h and not (style.get("omit_zero_value") and float(h["value"]) == 0.0
                                  and a not in spec["sensitive_hosts"]):
             cfg["value"] = num(h["value"])
         if style.get("repeat_sensitive_value") and a in spec["sensitive_hosts"]:
             # the documentation allows a sensitive host to repeat its (matching) value
             cfg["value"] = spec["sensitive_hosts"][a]
+        if style.get("aliases"):
+            # hosts with identical configurations are written ONCE and referred to by YAML anchor / alias: the dumper
+            # emits &id / *id for a mapping object that occurs several times
+            pool = doc.setdefault("_cfg_pool", [])
+            for other in pool:
+                if other == cfg:
+                    cfg = other
+                    break
+            else:
+                pool.append(cfg)
         doc["host_configurations"][str(a)] = cfg
-    doc["firewall"] = {str(k): list(v) for k, v in spec["firewall"].items()}
+    doc.pop("_cfg_pool", None)
+    doc["firewall"] = {key(k): list(v) for k, v in spec["firewall"].items()}
     if spec.get("step_limit") is not None:
         doc["step_limit"] = spec["step_limit"]
     return doc
@@ -227,6 +248,9 @@ def load_yaml_text_with_nasim(text, name="verif"):
         atexit.register(lambda d=d, p=pid: (os.getpid() == p) and shutil.rmtree(d, ignore_errors=True))
     with open(path, "w") as f:
         f.write(text)
+    # every document carries the SAME modification time (as files copied with `cp -p` or unpacked from one archive do):
+    # what a path meant before must not survive a rewrite just because size and timestamp happen to agree
+    os.utime(path, ns=(1_600_000_000_000_000_000, 1_600_000_000_000_000_000))
     try:
         return nasim.load_scenario(path, name=name)
     finally:
@@ -257,6 +281,7 @@ def to_scenario(spec):
             firewall={tuple(k): list(v) for k, v in h.get("firewall", {}).items()},
             value=host_value(spec, a),
             discovery_value=float(h.get("discovery_value", 0)),
+            **(h.get("_init_flags") or {}),
         )
     d = {}
     d[u.SUBNETS] = [1] + list(spec["subnets"])
@@ -322,7 +347,12 @@ def spec_from_scenario(sc, name=None):
 def build_scenario(spec, binding):
     """binding: 'yaml' (real loader in the loop) or 'dict'"""
     if binding == "yaml":
-        return load_yaml_text_with_nasim(dump_yaml(to_yaml_doc(spec)), name=spec.get("name", "spec"))
+        # the surface form of the file (anchors / aliases for repeated host configurations) varies with
+        # the scenario, deterministically: the meaning of a document does not depend on it
+        import zlib
+        h = zlib.crc32(str(spec.get("name", "spec")).encode())
+        style = {"aliases": bool(h % 2)}
+        return load_yaml_text_with_nasim(dump_yaml(to_yaml_doc(spec, style)), name=spec.get("name", "spec"))
     if binding == "dict":
         return to_scenario(spec)
     raise ValueError(binding)
